@@ -42,4 +42,13 @@ PROPS["C08"] = {
                     "after a restart the chain node's first pending answer exceeds every nonce it accepted from this account (needed only for the cross-restart corollary)"],
 }
 
+PROPS["C17"] = {
+    "harness": {"kind": "overlay", "pkg": "pkg/p2p/libp2p", "pkgname": "libp2p",
+                "files": ["libp2p/c17_test.go"], "test": "TestVerifC17"},
+    "level_text": "Theorem by induction over arbitrary histories of placements (permanent, timed, re-blocking of the same peer), time advances and queries: isBlocked answers exactly 'some placement on this peer is still in force' (duration 0, or now <= start+duration), the dial and secured hooks answer its negation, the listing is sound and complete away from expiry instants; corollaries: permanent blocks never lapse, timed blocks hold their full term, never-blocked peers are unaffected; the failure-class -> duration table (0/0/2min/5min) is regenerated from libp2p.go and pinned by a theorem. The model is tied to the real blockPeer/isBlocked/BlockedPeers and the real gater by an exhaustive table of <=3 placements x probe times plus random multi-peer histories.",
+    "level_note": "Trusted: Lean kernel; differential harness (virtual time by shifting stored start instants, queries kept >= 1 s from expiry instants); time.Now monotonicity; libp2p calling the gater hooks is not modelled.",
+    "nontrivial_rule": "distinct (tag, model answer list) pairs; non-trivial = at least one placement and one query",
+    "assumptions": ["each blocklist operation is atomic (blockMu held for the whole body)", "libp2p consults InterceptPeerDial / InterceptSecured for every dial / secured connection"],
+}
+
 NOT_CLAIMED = {}
